@@ -32,7 +32,25 @@ STRINGS = [
     '""', '"""', '\\"""', "\u2028", "\ufeff", "a\n", "\n", " ", "\t", "a\tb\n\tc", "a\n\tb", "long " * 20 + "\nsecond",
     "\b\f", "\\u0041", "${x}", "a,b", "{a b}", "...", "multi\nline\n  with indent\n\nand blank", "x\n\n", "\n\nx",
     'say """hi""" twice """', "ends with triple\"\"\"", "q\"\"",
+    # every non-blank line indented, with empty / whitespace-only lines in between (common-indent computation)
+    "  a\n\n  b", "\ta\n\n\tb", "  a\n \n  b", " a\n\n b\n\n c", "    a\n  \n    b\n      c", "  a\n\t\n  b",
+    "  a\n\n  b\n", " x\n\n\n x",
 ]
+
+
+def layout_strings():
+    """all 2-4 line strings over a small alphabet of (indent, content) lines: systematic cover of the block-string
+    layout decisions (common indent, blank lines, first/last line)"""
+    lines = ["", " ", "  ", "a", " a", "  a", "\ta"]
+    out = []
+    for n in (2, 3):
+        for combo in itertools.product(lines, repeat=n):
+            out.append("\n".join(combo))
+    return out
+
+
+import itertools
+STRINGS += layout_strings()
 
 
 def quoted(s):
